@@ -693,8 +693,16 @@ func main() {
 		named("lib/dhcpmsg", c.n, c.d)
 	}
 	// call-site literals
-	r, ok := callArg("lib/server/netio.go", "handleDiscover", "UpdateClient", 2, 0)
+	r, ok := callArg("lib/server/netio.go", "handleDiscover", "OfferIP", 4, 0)
+	if !ok {
+		r, ok = callArg("lib/server/netio.go", "handleDiscover", "HoldClient", 2, 0)
+	}
+	if !ok {
+		r, ok = callArg("lib/server/netio.go", "handleDiscover", "UpdateClient", 2, 0)
+	}
 	setN("gf_offer_hold_ns", r, ok, 15e9)
+	r, ok = callArg("lib/server/netio.go", "handleRequest", "HoldClient", 2, 0)
+	setN("gf_request_hold_ns", r, ok, 15e9)
 	r, ok = callArg("lib/arpping/arpping.go", "Ping", "WithTimeout", 1, 0)
 	setN("gf_arp_timeout_ns", r, ok, 200e6)
 	r, ok = forBound("lib/server/utils.go", "arpVerify")
